@@ -107,8 +107,12 @@ class StorageTools:
         path = os.path.join(StorageTools.getStorageForProfile(profile_name), name)
         logger.debug("Writing %s" % path)
 
-        with open(path, 'w' if type(val) is str else 'wb') as attrFile:
+        # write to a temporary file and rename it over the target, so that a crash while writing
+        # leaves the previous file intact
+        tmppath = path + ".tmp"
+        with open(tmppath, 'w' if type(val) is str else 'wb') as attrFile:
             attrFile.write(val)
+        os.replace(tmppath, path)
 
     @staticmethod
     def readProfileData(profile_name, name, default=None):
